@@ -823,3 +823,62 @@ theorem pushBackMove_slot_ok {mx : Nat} {a : Arr} {vs : List Elt} (L : Log) (i :
   exact ⟨f1, rfl, by simp only [Log.adv_ctor, Log.adv_dtor]; show _ = _ + (a.size + 1) + _; omega, rfl⟩
 
 end C26
+
+namespace C26
+
+/-! ## emplace with reallocation: the new element is constructed in the new block first -/
+
+theorem realloc_with_new {a : Arr} {vs : List Elt} (L : Log) (nc p : Nat) (v : Elt) (h : Rep a vs)
+    (hp : p ≤ vs.length) (hnc : vs.length + 1 ≤ nc) :
+    let c0 := construct (allocN nc) L p v
+    let c1 := moveRange c0.1 a.cells c0.2 0 0 p
+    let c2 := moveRange c1.1 c1.2.1 c1.2.2 (p + 1) p (a.size - p)
+    Rep ⟨c2.1, a.size + 1⟩ (splice vs p p [v]) ∧ c2.1.length = nc ∧ c2.2.2 = L.adv (vs.length + 1) vs.length := by
+  intro c0 c1 c2
+  have hs := h.size
+  have hle := h.le
+  have hraw0 : (allocN nc)[p]? = some none := by rw [allocN_getElem?, if_pos (by omega)]
+  have e0 : c0 = ((allocN nc).set p (some v), L.adv 1 0) := construct_raw L v hraw0
+  have hlen0 : (allocN nc).length = nc := by simp [allocN]
+  have n0 : ∀ j, c0.1[j]? = if j = p then some (some v) else if j < nc then some none else none := by
+    intro j; rw [e0]; show ((allocN nc).set p (some v))[j]? = _
+    rw [getElem?_set_in _ (by rw [hlen0]; omega), allocN_getElem?]
+  -- first move: [0,p)
+  have hs1 : ∀ k, k < p → ∃ x, a.cells[0 + k]? = some (some x) := by
+    intro k hk; rw [Nat.zero_add]; exact ⟨_, h.live (by omega)⟩
+  have hd1 : ∀ k, k < p → c0.1[0 + k]? = some none := by
+    intro k hk; rw [Nat.zero_add, n0, if_neg (by omega), if_pos (by omega)]
+  obtain ⟨l1, n1, o1⟩ := moveRange_spec p c0.1 a.cells c0.2 0 0 hs1 hd1
+  -- second move: [p,size) -> [p+1, size+1)
+  have hs2 : ∀ k, k < a.size - p → ∃ x, c1.2.1[p + k]? = some (some x) := by
+    intro k hk
+    show ∃ x, (moveRange c0.1 a.cells c0.2 0 0 p).2.1[p + k]? = _
+    rw [o1, if_neg (by omega)]; exact ⟨_, h.live (by omega)⟩
+  have hd2 : ∀ k, k < a.size - p → c1.1[p + 1 + k]? = some none := by
+    intro k hk
+    show (moveRange c0.1 a.cells c0.2 0 0 p).1[p + 1 + k]? = _
+    rw [n1, if_neg (by omega), n0, if_neg (by omega), if_pos (by omega)]
+  obtain ⟨l2, n2, _⟩ := moveRange_spec (a.size - p) c1.1 c1.2.1 c1.2.2 (p + 1) p hs2 hd2
+  have hpt : ∀ j, c2.1[j]? = cellAt (splice vs p p [v]) nc j := by
+    intro j
+    show (moveRange c1.1 c1.2.1 c1.2.2 (p + 1) p (a.size - p)).1[j]? = _
+    rw [n2 j]
+    show (if p + 1 ≤ j ∧ j < p + 1 + (a.size - p) then (moveRange c0.1 a.cells c0.2 0 0 p).2.1[p + (j - (p + 1))]?
+      else (moveRange c0.1 a.cells c0.2 0 0 p).1[j]?) = _
+    rw [o1, n1 j, n0 j]
+    simp only [Nat.zero_le, true_and, Nat.zero_add, Nat.sub_zero, h.cells]
+    unfold cellAt
+    rw [getElem?_splice hp, length_splice hp]
+    simp only [List.length_singleton]
+    pw_close
+  have hp' := Rep.of_pointwise (a := ⟨c2.1, a.size + 1⟩) (vs := splice vs p p [v]) nc
+    (by rw [length_splice hp]; simp; omega) (by rw [length_splice hp]; simp; omega) hpt
+  refine ⟨hp'.1, hp'.2, ?_⟩
+  show (moveRange c1.1 c1.2.1 c1.2.2 (p + 1) p (a.size - p)).2.2 = _
+  rw [l2]
+  show (moveRange c0.1 a.cells c0.2 0 0 p).2.2.adv _ _ = _
+  rw [l1, e0]
+  simp only [Log.adv_adv]
+  congr 1 <;> omega
+
+end C26
